@@ -59,6 +59,50 @@ void gen_spec_str(const gen_spec *g, char *buf, size_t n)
 
 static ld unif_pm(vf_rng *r) { ld v; do { v = (ld)(2.0 * rng_unif(r) - 1.0); } while (fabsl(v) < 1e-3L); return v; }
 
+
+/* Incomplete-LU gadget: upper band matrix in natural order where a few columns k have no entry on or below the diagonal;
+   each such column is tied to an earlier column c by an O(1) entry (c,k) and a tiny entry (k,c) (structurally nonsingular:
+   rows c,k <-> columns k,c).  With diagonal pivots and a drop tolerance above the tiny entry, L(k,c) is dropped, no fill reaches
+   column k, its L part comes out empty and ?gsitrf has to invent a position and a pivot for it. */
+void gen_ilu_emptycol(vf_rng *r, const vf_api *P, int n, vf_mat *A)
+{
+    if (n < 4) n = 4;
+    int bw = rng_int(r, 1, 3); unsigned char *pat = calloc((size_t)n * (size_t)n, 1); ld *val = calloc((size_t)n * (size_t)n, sizeof(ld));
+#define E(i, j) pat[(size_t)(j) * n + (i)]
+#define V(i, j) val[(size_t)(j) * n + (i)]
+    if (n >= 6 && rng_bool(r, 0.75)) {
+        /* second flavour: diagonally dominant band matrix whose LAST row holds nothing but one or two tiny entries in early columns
+           (no diagonal entry): those L entries are dropped when their supernodes close, no fill reaches position (n-1,n-1) and the
+           last column's L part comes out empty. Nothing needs room after the last column, so the workspaces closest to the smallest
+           sufficient length are the ones in which the value array is exactly full there */
+        int lo = rng_int(r, 1, 3), up = rng_int(r, 1, 3);
+        for (int j = 0; j < n; j++) for (int i = j - up < 0 ? 0 : j - up; i <= j + lo && i < n; i++) if (i == j || rng_bool(r, 0.7)) { E(i, j) = 1; V(i, j) = i == j ? (ld)(2 * (lo + up) + 2) : unif_pm(r); }
+        for (int j = 0; j < n; j++) { E(n - 1, j) = 0; V(n - 1, j) = 0; }
+        for (int j = 1; j < n; j++) if (!E(j - 1, j)) { E(j - 1, j) = 1; V(j - 1, j) = unif_pm(r); }   /* full superdiagonal: rows c..n-2 can shift one column right, the matrix stays structurally nonsingular */
+        int nt = rng_int(r, 1, 2); for (int t = 0; t < nt; t++) { int c = rng_int(r, 0, n / 2 - 1); E(n - 1, c) = 1; V(n - 1, c) = ldexpl(unif_pm(r), -rng_int(r, 30, 60)); }
+        goto emit;
+    }
+    for (int j = 0; j < n; j++) for (int i = j - bw < 0 ? 0 : j - bw; i <= j; i++) if (i == j || rng_bool(r, 0.6)) { E(i, j) = 1; V(i, j) = i == j ? (ld)(2 + rng_int(r, 0, 3)) : unif_pm(r); }
+    if (rng_bool(r, 0.5)) for (int j = 0; j + 1 < n; j++) if (rng_bool(r, 0.3)) { E(j + 1, j) = 1; V(j + 1, j) = 0.5L * unif_pm(r); }   /* some genuine sub-diagonal entries */
+    int npair = rng_int(r, 1, 3), used = 0;
+    for (int t = 0; t < 12 && used < npair; t++) {
+        int k = t == 0 ? n - 1 : rng_bool(r, 0.5) ? rng_int(r, n - 3, n - 1) : rng_int(r, 2, n - 1), c = rng_int(r, 0, k - 1);   /* the last column first: storage is tightest there */
+        int clash = 0; for (int i = k; i < n; i++) if (i != k && E(i, k)) clash = 1;      /* column k must have nothing below its diagonal */
+        if (clash || !E(k, k) || !E(c, c)) continue;
+        int rowk = 0; for (int j = 0; j < n; j++) if (j != k && E(k, j)) rowk++;          /* keep row k otherwise empty to the left: only the tiny entry */
+        for (int j = 0; j < k; j++) if (E(k, j)) clash = 1;
+        if (clash) continue;
+        E(k, k) = 0; V(k, k) = 0; E(c, k) = 1; V(c, k) = 1 + 0.5L * unif_pm(r); E(k, c) = 1; V(k, c) = ldexpl(unif_pm(r), -rng_int(r, 30, 60)); used++; (void)rowk;
+    }
+emit:;
+    int_t nnz = 0; for (size_t q = 0; q < (size_t)n * n; q++) nnz += pat[q];
+    A->m = A->n = n; A->nnz = nnz; A->colptr = malloc(sizeof(int_t) * (size_t)(n + 1)); A->rowind = malloc(sizeof(int_t) * (size_t)(nnz + 1)); A->v = malloc(sizeof(ldc) * (size_t)(nnz + 1));
+    int_t q = 0; for (int j = 0; j < n; j++) { A->colptr[j] = q; for (int i = 0; i < n; i++) if (E(i, j)) { A->rowind[q] = i; A->v[q++] = P->round(V(i, j) + (P->cplx ? 0.25L * V(i, j) * I : 0)); } }
+    A->colptr[n] = q; free(pat); free(val);
+#undef E
+#undef V
+}
+
 void gen_matrix(vf_rng *r, const vf_api *P, const gen_spec *g, vf_mat *A)
 {
     int m = g->m, n = g->n;
